@@ -117,6 +117,31 @@ def cap_rule(ck, F, E, field, limit, floor_pushes):
                     continue
                 ok = "guard `len(%s) %s` at bb%d dominates the push; over-limit arm returns StackOverflow" % (field, how, g)
                 break
+            # the guard may live in a helper called with `?` (`self.ensure_room_on_stack()?;`): a Program method that tests
+            # len(field) against the limit, fails with StackOverflow on the over-limit arm and never grows the vector
+            if ok is None:
+                from lib import on_ok_arm
+                for g in body.calls():
+                    gb = F.bodies.get(g.callee)
+                    if gb is None or gb.self_adt != PROGRAM or g.bb == c.bb:
+                        continue
+                    hg = find_len_guards(gb, field, limit)
+                    grows = [x for x in gb.calls() if not x.is_local and receiver_field(gb, x) == (PROGRAM, field)
+                             and any(x.callee.endswith(g2) for g2 in GROW)]
+                    if not hg or grows:
+                        continue
+                    if not any(any(a[1] == "StackOverflow" for a in region_aggregates(gb, exclusive_region(gb, over_t)))
+                               for (_g, over_t, _u, _h) in hg):
+                        continue
+                    if not on_ok_arm(body, g, c.bb):
+                        continue
+                    other = [c2 for c2 in body.calls() if c2 is not c and not c2.is_local and
+                             receiver_field(body, c2) == (PROGRAM, field) and any(c2.callee.endswith(g2) for g2 in GROW)
+                             and body.reaches(g.bb, c2.bb) and body.reaches(c2.bb, c.bb)]
+                    if other:
+                        continue
+                    ok = "guarded by %s()? (len(%s) vs %d, StackOverflow on the over-limit arm)" % (g.callee.split("::")[-1], field, limit)
+                    break
             # re-insertion of the element just removed from the same vector (net size not increased)
             if ok is None and len(c.args) > 1:
                 v = strip_expr(body.expr(c.args[1]))
@@ -139,8 +164,8 @@ def run(ck, F, E):
                "MAX_DIM_TOTAL_ELEMENTS is %r, the property says 10000" % maxel)
     if limit is None:
         limit = 32
-    cap_rule(ck, F, E, "stack", limit, 2)
-    cap_rule(ck, F, E, "loop_stack", limit, 2)
+    cap_rule(ck, F, E, "stack", limit, 1)
+    cap_rule(ck, F, E, "loop_stack", limit, 1)
     loop_rules(ck, F, E)
     dim_rules(ck, F, E, maxel or 10000)
     typing_rules(ck, F, E)
